@@ -160,6 +160,19 @@ def findByShape (meets : List Pt → Prim → Bool) (n : Net) : Shape → Res (L
   | .group ss => findGroup meets n [] ss
   | .prim s => findPrim meets n s
 
+/-- `Scenario.remove_lanelet(list)` (scenario.py:950-973), the part that touches the network: for every entry in
+    turn, `KeyError` if no lanelet of that id is in the network (any more), else `lanelet_network.remove_lanelet(id)`
+    with the default `rtree=True`.  An exception leaves the earlier entries removed.  Result: the network after the
+    call, whether or not it raised, and the exception class if it did (the caller may catch it and go on). -/
+def scRemoveLoop : Net → List Int → Net × Option Err
+  | n, [] => (n, none)
+  | n, i :: is =>
+    if n.lanelets.any (fun k => k.id = i) then
+      match removeLanelet n i true with
+      | .ok n' => scRemoveLoop n' is
+      | .error e => (n, some e)
+    else (n, some .key)
+
 /-! ### Operation sequences -/
 
 inductive Op where
@@ -167,12 +180,19 @@ inductive Op where
   | remove (i : Int) (rtree : Bool)
   | addFrom (ls : List Lanelet)
   | copy (f : Nat → Nat)        -- deepcopy / pickle round trip; continue on the copy
+  | scRemove (ids : List Int)   -- Scenario.remove_lanelet(list); an exception is caught by the caller, who goes on
 
 def step (n : Net) : Op → Res Net
   | .add l r => .ok (addLanelet n l r).1
   | .remove i r => removeLanelet n i r
   | .addFrom ls => .ok (addFromNetwork n ls).1
   | .copy f => .ok (copyNet f n)
+  | .scRemove ids => .ok (scRemoveLoop n ids).1
+
+/-- The exception an operation raises and its caller catches (`step` continues on the state it leaves). -/
+def caught (n : Net) : Op → Option Err
+  | .scRemove ids => (scRemoveLoop n ids).2
+  | _ => none
 
 def run : Net → List Op → Res Net
   | n, [] => .ok n
